@@ -21,11 +21,31 @@ CONFIGS = {
 
 
 def settings_for(cfg, evm_version="cancun", **kw):
-    from vyper.compiler.settings import OptimizationLevel, Settings
+    """cfg: a name of CONFIGS, optionally followed by modifiers  `+no:<optimisation>` (--disable-<optimisation>, Venom),
+    `+inline:<n>` (inline threshold, Venom), `+debug` (debug mode)"""
+    from vyper.compiler.settings import OptimizationLevel, Settings, VenomOptimizationFlags
 
-    venom, opt = CONFIGS[cfg]
+    base, *mods = cfg.split("+")
+    venom, opt = CONFIGS[base]
     level = {"gas": OptimizationLevel.GAS, "none": OptimizationLevel.NONE, "codesize": OptimizationLevel.CODESIZE, "O3": OptimizationLevel.O3}[opt]
-    return Settings(experimental_codegen=venom, optimize=level, evm_version=evm_version, enable_decimals=True, **kw)
+    extra = dict(kw)
+    flags = {}
+    thr = None
+    for m in mods:
+        if m.startswith("no:"):
+            flags["disable_" + m[3:]] = True
+        elif m.startswith("inline:"):
+            thr = int(m[7:])
+        elif m == "debug":
+            extra["debug"] = True
+        else:
+            raise ValueError(m)
+    if flags or thr is not None:
+        vf = VenomOptimizationFlags(level=level, **flags)
+        if thr is not None:
+            vf.inline_threshold = thr
+        extra["venom_flags"] = vf
+    return Settings(experimental_codegen=venom, optimize=level, evm_version=evm_version, enable_decimals=True, **extra)
 
 
 @functools.lru_cache(maxsize=512)
